@@ -326,6 +326,8 @@ type c10Tracer struct {
 	keys    map[common.Address]map[common.Hash]bool
 	lastGas map[int]bool
 	depth   int
+	crt     []bool
+	topCrt  bool
 }
 
 func c10IsPrecompileAddr(a common.Address) bool {
@@ -351,6 +353,7 @@ func (t *c10Tracer) addKey(a common.Address, k common.Hash) {
 }
 func (t *c10Tracer) CaptureStart(env *KVM, from common.Address, to common.Address, create bool, input []byte, gas uint64, value *big.Int) {
 	t.cands[from], t.cands[to] = true, true
+	t.topCrt = create
 	if !create && c10IsPrecompileAddr(to) {
 		t.res.sawPrecompile = true
 	}
@@ -392,16 +395,28 @@ func (t *c10Tracer) CaptureState(pc uint64, op OpCode, gas, cost uint64, scope *
 }
 func (t *c10Tracer) CaptureEnter(typ OpCode, from common.Address, to common.Address, input []byte, gas uint64, value *big.Int) {
 	t.cands[from], t.cands[to] = true, true
+	t.crt = append(t.crt, typ == CREATE || typ == CREATE2)
 	if typ != CREATE && typ != CREATE2 && c10IsPrecompileAddr(to) {
 		t.res.sawPrecompile = true
 	}
 }
-func (t *c10Tracer) CaptureExit(output []byte, gasUsed uint64, err error) { t.noteErr(err) }
+func (t *c10Tracer) CaptureExit(output []byte, gasUsed uint64, err error) {
+	t.noteErr(err)
+	if n := len(t.crt); n > 0 {
+		if t.crt[n-1] && len(output) > 24576 {
+			t.res.foreignOp = true // configs.MaxCodeSize is 39231 on KVM, 24576 on Ethereum: chain parameter
+		}
+		t.crt = t.crt[:n-1]
+	}
+}
 func (t *c10Tracer) CaptureFault(pc uint64, op OpCode, gas, cost uint64, scope *ScopeContext, depth int, err error) {
 	t.noteErr(err)
 }
 func (t *c10Tracer) CaptureEnd(output []byte, gasUsed uint64, d time.Duration, err error) {
 	t.noteErr(err)
+	if t.topCrt && len(output) > 24576 {
+		t.res.foreignOp = true
+	}
 }
 
 func c10ChainConfig(v2 bool) *configs.ChainConfig {
@@ -611,8 +626,8 @@ func (t *c10GethTracer) CaptureState(env *gvm.EVM, pc uint64, op gvm.OpCode, gas
 		}
 	case gvm.CREATE, gvm.CREATE2:
 		t.lastCrt[depth] = true
-	case gvm.DIFFICULTY:
-		t.res.foreignOp = true // KVM has no DIFFICULTY (0x44)
+	case gvm.DIFFICULTY, gvm.GASLIMIT:
+		t.res.foreignOp = true // KVM numbers GASLIMIT 0x44 (Ethereum's DIFFICULTY) and leaves 0x45 undefined
 	case gvm.CHAINID:
 		if !t.v2 {
 			t.res.foreignOp = true // pre-Galaxias table has no CHAINID
